@@ -1,3 +1,4 @@
+import PsVerif.Model.ChanCap
 import PsVerif.Driver.Util
 import PsVerif.Model.Timelock
 import PsVerif.Model.Route
@@ -150,6 +151,10 @@ def handlePure : List String → Option String
     match inDecision a p (premiumLimit a (← int? limitPpm)) with
     | none => pure (if p > premiumLimit a (← int? limitPpm) then "premiumTooHigh" else "premiumTooLow")
     | some (lock, ask) => pure s!"lock={lock} ask={ask}"
+  | ["cap.lnd", bal, res] => do pure (toString (lndAboveReserveMsat (← int? bal) (← nat? res)))
+  | ["cap.clnspend", rep, toUs, res] => do pure (toString (clnSpendableMsat (← nat? rep) (← nat? toUs) (← nat? res)))
+  | ["cap.clnrecv", rep, total, toUs, res] => do
+    pure (toString (clnReceivableMsat (← nat? rep) (← nat? total) (← nat? toUs) (← nat? res)))
   | ["scid.cln", s] => do pure (hexStr (clnStyle (← unhexStr s)))
   | ["scid.lnd", s] => do pure (hexStr (lndStyle (← unhexStr s)))
   | ["premium.compute", amt, ppm] => do pure (toString (ppmCompute (← nat? amt) (← int? ppm)))
